@@ -25,6 +25,10 @@ class PathBound(Exception):
     """the path leaves the stated bounds of the query (neither a pass nor a violation; reported as outside the bound)"""
 
 
+class PathInfeasible(Exception):
+    """the path condition turned out to be unsatisfiable (an earlier feasibility check had timed out and was taken optimistically)"""
+
+
 class PathResult:
     def __init__(self, kind, ret, pc, ctx, msg=None, decisions=None):
         self.kind, self.ret, self.pc, self.ctx, self.msg, self.decisions = kind, ret, pc, ctx, msg, decisions
@@ -227,11 +231,11 @@ class Frame:
 
 
 class Exec:
-    def __init__(self, program, models, timeout_ms=30000, max_steps=200000, max_paths=4000):
+    def __init__(self, program, models, timeout_ms=30000, max_steps=200000, max_paths=4000, logic=None):
         self.P = program
         # specific patterns before catch-all trait patterns (`<.* as Trait>::m`)
         self.models = sorted(models, key=lambda m: 1 if m[0].pattern.startswith("^<.* as") else 0)
-        self.solver = z3.Solver()
+        self.solver = z3.SolverFor(logic) if logic else z3.Solver()
         self.solver.set("timeout", timeout_ms)
         self.max_steps = max_steps
         self.max_paths = max_paths
@@ -255,6 +259,8 @@ class Exec:
             self.pending = pending
             self.steps = 0
             self.fresh_n = 0
+            self.recorded = []
+            self.range_iters = {}
             self.solver.push()
             for a in self.base_assumptions:
                 self.solver.add(a)
@@ -270,8 +276,15 @@ class Exec:
                     results.append(PathResult("panic", None, list(self.pc), ctx, msg=f"{p.msg} @ {p.where}", decisions=list(self.trace)))
                 except PathBound as b:
                     results.append(PathResult("bound", None, list(self.pc), ctx, msg=str(b), decisions=list(self.trace)))
+                except PathInfeasible:
+                    self.stats["infeasible_dropped"] = self.stats.get("infeasible_dropped", 0) + 1
             finally:
                 self.solver.pop()
+            if results:
+                try:
+                    results[-1].recorded = list(self.recorded)
+                except Exception:
+                    pass
             self.stats["paths"] += 1
             if self.stats["paths"] > self.max_paths:
                 raise Unsupported(f"path budget exceeded ({self.max_paths})")
@@ -307,13 +320,18 @@ class Exec:
             elif f:
                 choice = False
             else:
-                raise Unsupported("both branches infeasible (inconsistent path condition)")
+                raise PathInfeasible()
         self.trace.append(choice)
         self.pos += 1
         lit = c if choice else z3.Not(c)
         self.pc.append(lit)
         self.solver.add(lit)
         return choice
+
+    def pc_assume(self, cond):
+        """assumption introduced by a model (e.g. a sanity bound on a fresh length): part of the path condition, not a branch"""
+        self.pc.append(cond)
+        self.solver.add(cond)
 
     def concretize(self, term, candidates):
         """pick a concrete value for a bit-vector term among candidates (forking); None if none matches"""
@@ -442,7 +460,13 @@ class Exec:
         # closure call through Fn* traits is handled by a model; crate functions by MIR
         d = self.P.resolve(canon)
         if d is not None:
-            return self.call_fn(d, vals)
+            if not hasattr(self, "callsite_stack"):
+                self.callsite_stack = []
+            self.callsite_stack.append(callee)
+            try:
+                return self.call_fn(d, vals)
+            finally:
+                self.callsite_stack.pop()
         raise Unsupported("no model for call: " + canon)
 
     def call_closure(self, clo, args):
@@ -591,6 +615,16 @@ class Exec:
         m = re.match(r"'(.*)'$", c)
         if m:
             return Int(ord(eval("'" + m.group(1) + "'")), "char")
+        m = re.match(r"(.*)::(\w+)\((.*)\)$", c, re.S)
+        if m and not c.startswith("<"):
+            # enum value constant with a payload, e.g. Result::<Infallible, E>::Err(E)
+            ety = strip_generics(m.group(1)).split("::")[-1]
+            if ety in self.P.enums and m.group(2) in self.P.enums[ety]:
+                return Enum(ety, m.group(2), self.P.enums[ety][m.group(2)], [Opaque("const", m.group(3))])
+        m = re.match(r"(?:.*::)?(\w+)::(\w+)::\{constant#\d+\}$", c)
+        if m and m.group(1) in self.P.enums and m.group(2) in self.P.enums[m.group(1)]:
+            # discriminant constant of a fieldless enum variant (`Variant as u8` in a pattern)
+            return Int(self.P.enums[m.group(1)][m.group(2)] % (1 << 64), "isize")
         if "promoted[" in c or re.match(r"[\w:<> ]+$", c) or "::" in c:
             return self.eval_named_const(c)
         raise Unsupported("const " + c)
